@@ -47,6 +47,15 @@ def gen_annotation(rng, tkey, gkey, sub):
                                         s=s, e=e, strand=strand, frame=rng.choice([".", "0", "1"]), attrs=[[gkey, [g]], [tkey, [t]]]))
             tr_list.append((t, lines))
             feats.extend(lines)
+        # subfeature lines that carry the gene id only (no transcript id), possibly outside every transcript's span
+        if rng.random() < 0.25:
+            for _ in range(rng.choice([1, 1, 2])):
+                s = max(1, base + rng.randrange(-80, 1500))
+                e = s + rng.randrange(0, 120)
+                feats.append(imp.mkfeat(seqid=seqid, source="src", type_=rng.choice([sub, sub, "CDS"]), s=s, e=e, strand=strand,
+                                        attrs=[[gkey, [g]]]))
+                if feats[-1]["type"] == sub:
+                    g_exons.append((s, e))
         # explicit lines
         if rng.random() < 0.3 and g_exons:
             lo, hi = min(s for s, _ in g_exons), max(e for _, e in g_exons)
@@ -144,6 +153,8 @@ def labels(c, o):
     yield "input=" + ("text" if c.get("text") else "features")
     if any(f["type"] in ("gene", "transcript") for f in c["feats"]):
         yield "has-explicit-gene-or-transcript-line"
+    if any(f["type"] not in ("gene", "transcript") and not any(k == c["tkey"] for k, _ in f["attrs"]) for f in c["feats"]):
+        yield "has-gene-id-only-line"
     if o["tables"][0] == "ok":
         yield "derived=%d" % min(sum(1 for r in o["tables"][1]["rows"] if r["source"] == "gffutils_derived"), 8)
     else:
